@@ -215,3 +215,249 @@ Definition real_step_ok_with (use_tla : bool) (W : wsys) (proc lbl : string) (se
   end.
 
 Definition real_step_ok := real_step_ok_with false.
+
+(* ------------------------------------------------------------------ coverage-guided seed states (search oracle only)
+   A seed is a reachable state of the TLA+ model together with the schedule (attempts from Init) that reaches it.
+   Seeds are collected off-line by walks that keep every state exercising a new *item*: a (label, decision-tree node,
+   truth vector of the atoms of that node's condition) triple. When a label's obligation breaks, both trees are first
+   compared on the label's seeds over all small choice vectors. *)
+From Coq Require Import NArith PArith FSets.FSetPositive.
+
+Definition coq_string (s : string) : string :=
+  (* Coq string literal: double the quotes *)
+  """" ++ (fix esc (s : string) : string :=
+             match s with
+             | EmptyString => EmptyString
+             | String c r => if Ascii.eqb c """"%char then String c (String c (esc r)) else String c (esc r)
+             end) s ++ """".
+
+Fixpoint coq_value (v : value) : string :=
+  match v with
+  | VDefault => "VDefault"
+  | VBool true => "VBool true" | VBool false => "VBool false"
+  | VNum z => "VNum (" ++ string_of_Z z ++ ")"
+  | VStr s => "VStr " ++ coq_string s
+  | VSet xs => "VSet [" ++ sep "; " (map coq_value xs) ++ "]"
+  | VTup xs => "VTup [" ++ sep "; " (map coq_value xs) ++ "]"
+  | VFun kvs => "VFun [" ++ sep "; " (map (fun kv => "(" ++ coq_value (fst kv) ++ ", " ++ coq_value (snd kv) ++ ")") kvs) ++ "]"
+  end.
+Definition coq_gstate (st : gstate) : string :=
+  "[" ++ sep "; " (map (fun xv => "(" ++ coq_string (fst xv) ++ ", " ++ coq_value (snd xv) ++ ")") st) ++ "]".
+
+(* atoms of a condition: leaves below /\, \/, ~ *)
+Fixpoint atoms (fuel : nat) (e : expr) : list expr :=
+  match fuel with
+  | O => [e]
+  | S f =>
+    match e with
+    | Nd (TOp B_and) [a; b] => atoms f a ++ atoms f b
+    | Nd (TOp B_or) [a; b] => atoms f a ++ atoms f b
+    | Nd (TOp B_not) [a] => atoms f a
+    | Nd TConj cs => flat_map (atoms f) cs
+    | Nd TDisj cs => flat_map (atoms f) cs
+    | _ => [e]
+    end
+  end%list.
+
+Definition atom_digit (D : list opdef) (r : env) (e : expr) : N :=
+  match eval D EVAL_FUEL r e with Ok (VBool true) => 1 | Ok (VBool false) => 2 | _ => 3 end%N.
+
+(* the items met by one run of a tree: keys are numbers built from the path; returns (outcome-ish continuation not needed) *)
+Fixpoint cov_items (D : list opdef) (t : dtree) (r : env) (ks : list nat) (key : N) (acc : list N) {struct t} : list N :=
+  match t with
+  | Leaf _ => (key * 4 + 3)%N :: acc
+  | Fail _ => acc
+  | Branch c t1 t2 =>
+      let av := fold_left (fun k a => (k * 4 + atom_digit D r a)%N) (atoms 6 c) (key * 4)%N in
+      match eval D EVAL_FUEL r c with
+      | Ok (VBool true) => cov_items D t1 r ks (key * 4 + 1)%N (av :: acc)
+      | Ok (VBool false) => cov_items D t2 r ks (key * 4 + 2)%N (av :: acc)
+      | _ => av :: acc
+      end
+  | Choice s k =>
+      match eval D EVAL_FUEL r s with
+      | Ok (VSet (x :: xs)) =>
+          let '(c, ks') := next_choice ks in
+          match nth_error (x :: xs) (Nat.modulo c (List.length (x :: xs))) with
+          | Some v => cov_items D k (with_bound r v) ks' (key * 4 + 1)%N acc
+          | None => acc
+          end
+      | _ => (key * 4 + 2)%N :: acc
+      end
+  | Either ts =>
+      match ts with
+      | [] => acc
+      | _ =>
+        let '(c, ks') := next_choice ks in
+        let i := Nat.modulo c (List.length ts) in
+        pick (fun t1 => cov_items D t1 r ks' (key * 16 + N.of_nat i)%N acc) acc ts i
+      end
+  end.
+
+Definition pos_of_key (k : N) : positive := match k with N0 => 1%positive | Npos p => Pos.succ p end.
+
+Fixpoint index_of (x : string) (l : list string) (i : nat) : nat :=
+  match l with [] => i | y :: r => if String.eqb x y then i else index_of x r (S i) end.
+
+Definition all_labels (W : wsys) : list string :=
+  flat_map (fun pe => map (fun row => fst pe ++ "." ++ fst row) (snd (snd pe))) (w_procs W).
+
+(* coverage walk: like `walk` without comparison; every attempt's items are looked up in `known`; a state that
+   exercises a new item is reported as  #@#SEED label=.. #@#attempt=.. #@#key=.. #@#state=<coq term> #@#END  *)
+Fixpoint cwalk (n : nat) (W : wsys) (labels : list string) (known : PositiveSet.t) (st : gstate) (rnd : list nat)
+         (trace : list string) (out : list string) {struct n} : PositiveSet.t * list string * list string * gstate :=
+  match n with
+  | O => (known, rev out, rev trace, st)
+  | S n' =>
+      let '(rp, rnd1) := next_choice rnd in
+      let '(rs, rnd2) := next_choice rnd1 in
+      let '(ks, rnd3) := take 4 rnd2 in
+      match nth_mod (w_procs W) rp with
+      | None => (known, rev out, rev trace, st)
+      | Some (proc, (oset, table)) =>
+          match proc_ids W st oset with
+          | Err _ => (known, rev out, rev trace, st)
+          | Ok ids =>
+              match nth_mod ids rs with
+              | None => cwalk n' W labels known st rnd3 trace out
+              | Some self =>
+                  let r := env_of W st self in
+                  match e_loc r "pc" with
+                  | VStr lbl =>
+                      match lookup lbl table with
+                      | None => cwalk n' W labels known st rnd3 trace out
+                      | Some (_, tt0) =>
+                          let key := proc ++ "." ++ lbl in
+                          let k0 := N.of_nat (S (index_of key labels O)) in
+                          let items := cov_items (w_dtla W) tt0 r ks k0 [] in
+                          let fresh := filter (fun k => negb (PositiveSet.mem (pos_of_key k) known)) items in
+                          let known' := fold_left (fun s k => PositiveSet.add (pos_of_key k) s) fresh known in
+                          let ent := key ++ "/" ++ show_value self ++ "/" ++ sep "." (map nat_str ks) in
+                          let out' := match fresh with
+                                      | [] => out
+                                      | _ => ("#@#SEED label=" ++ key ++ " #@#self=" ++ show_value self ++ " #@#attempt=" ++ nat_str (List.length trace) ++
+                                              " #@#keys=" ++ sep "," (map (fun k => string_of_Z (Z.of_N k)) fresh) ++
+                                              " #@#state=" ++ coq_gstate st ++ " #@#END") :: out
+                                      end in
+                          match run (w_dtla W) EVAL_FUEL tt0 r ks with
+                          | OCommit g l _ => cwalk n' W labels known' (apply_commit st self g l) rnd3 (ent :: trace) out'
+                          | _ => cwalk n' W labels known' st rnd3 (("~" ++ ent) :: trace) out'
+                          end
+                      end
+                  | _ => cwalk n' W labels known st rnd3 trace out
+                  end
+              end
+          end
+      end
+  end.
+
+(* several walks in sequence sharing the known set; each from its own start state (None = Init) *)
+Fixpoint cwalks (n : nat) (W : wsys) (labels : list string) (known : PositiveSet.t)
+         (jobs : list (option gstate * list nat)) (acc : list string) : list string :=
+  match jobs with
+  | [] => rev acc
+  | (start, rnd) :: more =>
+      let '(r0, rnd') := take 8 rnd in
+      let st0 := match start with
+                 | Some s => Ok s
+                 | None => init_state W (w_init W) [] r0
+                 end in
+      match st0 with
+      | Err m => cwalks n W labels known more (("#@#WALKERROR Init: " ++ m ++ " #@#END") :: acc)
+      | Ok s =>
+          let '(known', out, tr, fin) := cwalk n W labels known s rnd' [] [] in
+          cwalks n W labels known' more
+                 (("#@#TRACE " ++ sep "," tr ++ " #@#FINAL " ++ coq_gstate fin ++ " #@#ENDWALK") :: rev_append out acc)
+      end
+  end.
+
+(* all choice vectors of length 3 over 0..b-1 *)
+Definition choice_vectors (b : nat) : list (list nat) :=
+  let r := seq 0 b in
+  flat_map (fun a => flat_map (fun c => map (fun d => [a; c; d]) r) r) r.
+
+(* compare both trees of a label on a stored state for every self standing at that label and every small choice vector *)
+Definition scan_seed (W : wsys) (proc lbl : string) (st : gstate) (seedid : string) : string :=
+  match lookup proc (w_procs W) with
+  | None => ""
+  | Some (oset, table) =>
+      match lookup lbl table, proc_ids W st oset with
+      | Some (gt, tt0), Ok ids =>
+          let hits :=
+              flat_map (fun self =>
+                          let r := env_of W st self in
+                          match e_loc r "pc" with
+                          | VStr l => if String.eqb l lbl then
+                                        flat_map (fun ks =>
+                                                    let og := run (w_dgo W) EVAL_FUEL gt r ks in
+                                                    let ot := run (w_dtla W) EVAL_FUEL tt0 r ks in
+                                                    if outcome_eqb og ot then [] else
+                                                      [describe O proc lbl self st ks og ot ++ "#@#SEEDID " ++ seedid ++ " #@#ENDSEED"])
+                                                 (choice_vectors 3)
+                                      else []
+                          | _ => []
+                          end) ids in
+          match hits with [] => "" | h :: _ => h end
+      | _, _ => ""
+      end
+  end.
+
+(* the state reached from Init by a stored schedule of attempts (process, self, choices), following the TLA+ model *)
+Fixpoint replay_sched (W : wsys) (st : gstate) (sched : list (string * value * list nat)) : gstate :=
+  match sched with
+  | [] => st
+  | (key, self, ks) :: more =>
+      let st' :=
+          match fold_left (fun acc pe =>
+                             match acc with
+                             | Some _ => acc
+                             | None => fold_left (fun a row => match a with Some _ => a | None =>
+                                                     if String.eqb (fst pe ++ "." ++ fst row) key then Some (snd (snd row)) else None end)
+                                                 (snd (snd pe)) None
+                             end) (w_procs W) None with
+          | Some tt0 => match run (w_dtla W) EVAL_FUEL tt0 (env_of W st self) ks with
+                        | OCommit g l _ => apply_commit st self g l
+                        | _ => st
+                        end
+          | None => st
+          end in
+      replay_sched W st' more
+  end.
+
+(* ------------------------------------------------------------------ real generated Go observed through harness/steplib
+   (harness/cmd/c02s, harness/cmd/c16): the observation gives the spec's global variables and the stepping archetype's
+   local resources; they are laid over the model's initial state (only the stepping process's own per-process components
+   are read by its trees). Choices: the real code's element order is not the model's, so the model must reproduce the
+   observed attempt for SOME choice vector within the observed ceilings. *)
+Definition tla_local_target (locals : list string) (I : instance) (res : string) : string * bool :=
+  (* TLA+ variable holding the Go local resource, and whether it is a per-process variable *)
+  match lookup res (i_binds I) with
+  | Some (mkBind (TgtLocal v) _) => (v, true)
+  | Some (mkBind (TgtGlobal v) _) => (v, false)
+  | _ => let v := strip_prefix (i_arch I) res in (v, mem v locals)
+  end.
+
+Definition set_comp (x : string) (self v : value) (st : gstate) : gstate :=
+  match lookup x st with
+  | Some f => match vupdate f self v with Ok f' => set_assoc x f' st | Err _ => st end
+  | None => st
+  end.
+
+Definition obs_state (locals : list string) (I : instance) (self : value) (base : gstate)
+           (globals : list (string * value)) (locs : list (string * value)) : gstate :=
+  let st1 := fold_left (fun s xv => set_assoc (fst xv) (snd xv) s) globals base in
+  fold_left (fun s rv =>
+               let '(res, v) := rv in
+               if String.eqb res ".pc" then
+                 match v with VStr l => set_comp "pc" self (VStr (tla_label I l)) s | _ => s end
+               else if String.eqb res ".stack" then s
+               else let '(x, per) := tla_local_target locals I res in
+                    if per then set_comp x self v s else set_assoc x v s) locs st1.
+
+Definition real_obs_ok (W : wsys) (locals : list string) (I : instance) (proc lbl : string) (self : value) (base : gstate)
+           (gpre : list (string * value)) (lpre : list (string * value)) (cands : list (list nat)) (kind : string)
+           (gpost : list (string * value)) (lpost : list (string * value)) : string :=
+  let pre := obs_state locals I self base gpre lpre in
+  let post := obs_state locals I self base gpost lpost in
+  if existsb (fun ks => String.eqb (real_step_ok W proc lbl self pre ks kind post) "") cands then ""
+  else real_step_ok W proc lbl self pre (hd [] cands) kind post.
